@@ -5,6 +5,7 @@
 #include "json_tokener.h"
 #include "json_util.h"
 #include <unistd.h>
+#include <sys/socket.h>
 const char *DOMAIN = "tok";
 
 static const char *err_name(enum json_tokener_error e)
@@ -171,6 +172,54 @@ void run_case(char *rest)
 			printf("fd ");
 			if (o) { jv_dump(o); json_object_put(o); } else putchar('-');
 			fclose(f); free(b);
+			break; }
+		case 'E': {
+			/* json_object_from_fd_ex(fd, depth) on a descriptor that delivers the bytes in slices:
+			 * E<depth>,<hex>[,cut,cut,...] — one SOCK_SEQPACKET packet per slice (each read() returns one
+			 * slice, i.e. short reads before the end of the data), then end-of-file */
+			char *c1 = strchr(tokp, ','), *c2;
+			size_t n, prev = 0; unsigned char *b; struct json_object *o; int dreq, sv[2];
+			if (!c1) { printf("BADOP"); break; }
+			*c1 = 0; dreq = atoi(tokp + 1);
+			c2 = strchr(c1 + 1, ',');
+			if (c2) *c2 = 0;
+			b = unhex(c1 + 1, &n);
+			if (socketpair(AF_UNIX, SOCK_SEQPACKET, 0, sv) != 0) { printf("SOCKFAIL"); free(b); break; }
+			while (prev < n) {
+				size_t cut = n;
+				if (c2) { char *e; cut = strtoul(c2 + 1, &e, 10); c2 = (*e == ',') ? e : NULL; if (cut > n) cut = n; }
+				if (cut > prev) { if (write(sv[1], b + prev, cut - prev) < 0) break; prev = cut; }
+				else if (!c2) { if (write(sv[1], b + prev, n - prev) < 0) break; prev = n; }
+			}
+			close(sv[1]);
+			o = json_object_from_fd_ex(sv[0], dreq);
+			printf("fd ");
+			if (o) { jv_dump(o); json_object_put(o); } else putchar('-');
+			close(sv[0]); free(b);
+			break; }
+		case 'B': {
+			/* a NUL-terminated input of n bytes parsed with len = -1: B<mode>,<n>
+			 * mode 0: an unterminated string  "aaaa…   1: an unterminated comment  / * aaaa…   2: 7 and blanks */
+			char *comma = strchr(tokp, ',');
+			int mode; size_t n; char *z; struct json_object *o; enum json_tokener_error e;
+			if (dead) { printf("skipped"); break; }
+			if (!comma) { printf("BADOP"); break; }
+			mode = atoi(tokp + 1); n = strtoull(comma + 1, NULL, 10);
+			z = (char *)malloc(n + 1);
+			if (!z) { printf("NOMEM"); break; }
+			memset(z, mode == 2 ? ' ' : 'a', n); z[n] = 0;
+			if (mode == 0 && n >= 1) z[0] = '"';
+			if (mode == 1 && n >= 2) { z[0] = '/'; z[1] = '*'; }
+			if (mode == 2 && n >= 1) z[0] = '7';
+			o = json_tokener_parse_ex(tok, z, -1);
+			free(z);
+			e = json_tokener_get_error(tok);
+			dead = (e != json_tokener_success && e != json_tokener_continue);
+			printf("%s %zu ", err_name(e), json_tokener_get_parse_end(tok));
+			if (e == json_tokener_success) jv_dump(o);
+			else if (o) printf("VALUE-WITH-ERROR");
+			else putchar('-');
+			if (o) json_object_put(o);
 			break; }
 		case 'R': json_tokener_reset(tok); dead = 0; printf("reset"); break;
 		case 'M': /* fail the k-th allocation from now on, during the next parse only */
